@@ -18,6 +18,7 @@ type callsOpts struct {
 	traffic            bool
 	earlyCalls         bool
 	reactKinds         []string
+	subResponses       bool // answers may come as sub-packages
 }
 
 // onlineConn: dial, register (first handled message -> join), quiescence.
@@ -108,6 +109,9 @@ func (g *genCtx) genCalls(o callsOpts) {
 			re := Reaction{Kind: kind}
 			if g.r.chance(50) {
 				re.Var = 1 + g.r.intn(1000) // a response body with content (parameter lists, id lists)
+				if o.subResponses && g.r.chance(25) {
+					re.Sub = 2 + g.r.intn(2) // ... sent as sub-packages when it is long enough
+				}
 			}
 			switch kind {
 			case "late":
@@ -176,7 +180,7 @@ func (g *genCtx) genCalls(o callsOpts) {
 
 func genC12(seed uint64, tier string, idx int) *Plan {
 	p, g := newPlan("C12", seed, tier)
-	g.genCalls(callsOpts{maxConns: 3, maxCalls: 6, traffic: true, earlyCalls: true,
+	g.genCalls(callsOpts{maxConns: 3, maxCalls: 6, traffic: true, earlyCalls: true, subResponses: true,
 		reactKinds: []string{"ok", "ok", "ok", "late", "dup", "unknown", "never", "unknown_then_ok"}})
 	p.Sched = g.sched()
 	p.Sched.Jitter = g.r.chance(25)
@@ -265,16 +269,51 @@ func checkC12(r *Result) []Violation {
 	}
 	// responses the simulated terminals actually sent: raw frame -> delivery event
 	type sent struct {
-		ev Ev
-		f  ref.Frame
+		ev    Ev
+		f     ref.Frame
+		whole bool // assembled from sub-packages
 	}
 	var resp []sent
 	for _, e := range r.Hist {
 		if e.K == KDeliver && strings.HasPrefix(e.Note, "resp:") {
 			if f, err := ref.Decode(e.Raw); err == nil {
-				resp = append(resp, sent{e, f})
+				resp = append(resp, sent{ev: e, f: f})
 			}
 		}
+	}
+	// an answer sent as sub-packages counts as one response, delivered when its last packet is: the pieces are
+	// replaced by one entry that carries the whole body
+	{
+		var merged []sent
+		type acc struct {
+			parts map[uint16][]byte
+			total uint16
+		}
+		open := map[[2]int]*acc{}
+		for _, s := range resp {
+			if !s.f.Sub {
+				merged = append(merged, s)
+				continue
+			}
+			k := [2]int{s.ev.C, int(s.f.ID)}
+			a := open[k]
+			if a == nil || s.f.No == 1 {
+				a = &acc{parts: map[uint16][]byte{}, total: s.f.Total}
+				open[k] = a
+			}
+			a.parts[s.f.No] = s.f.Body
+			if len(a.parts) == int(a.total) {
+				var whole []byte
+				for no := uint16(1); no <= a.total; no++ {
+					whole = append(whole, a.parts[no]...)
+				}
+				f := s.f
+				f.Body, f.Sub = whole, false
+				merged = append(merged, sent{ev: s.ev, f: f, whole: true})
+				delete(open, k)
+			}
+		}
+		resp = merged
 	}
 	usedResp := map[int]bool{}
 	for _, c := range collectCalls(r) {
@@ -335,7 +374,18 @@ func checkC12(r *Result) []Violation {
 			// it must be one the terminal actually sent, and no response serves two callers
 			found := -1
 			for i, s := range resp {
-				if !usedResp[i] && s.ev.C == c.cmdConn && bytes.Equal(s.ev.Raw, c.ret.Raw) && s.ev.Step < c.ret.Step {
+				if usedResp[i] || s.ev.C != c.cmdConn || s.ev.Step >= c.ret.Step {
+					continue
+				}
+				if s.whole && bytes.Equal(s.f.Body, c.ret.Body) && s.f.ID == c.ret.ID {
+					if !c.ret.Complete {
+						bad("incomplete_response", fmt.Sprintf("call %d was given a sub-package of the terminal's answer (id=%#04x) as its result instead of the complete message", c.n, c.ret.ID), c.ret.Step)
+						return vs
+					}
+					found = i
+					break
+				}
+				if !s.whole && bytes.Equal(s.ev.Raw, c.ret.Raw) {
 					found = i
 					break
 				}
